@@ -320,3 +320,52 @@ def shared_defeat_programs():
                 for x in ('0', '1', '5'):
                     out.append(('%s_%s_%d' % (dk, mk, order), src, [x]))
     return out
+
+
+def try_exit_programs():
+    """(tag, src, args): every way of leaving a try body other than by falling out of it or by defeat - `return` (with and
+    without a value, the value computed by a defeat function or after one), `break` and `continue` of a loop around the try,
+    `break`/`continue` of a loop inside the try followed by a defeat - for try/stop and try/undo, in value-returning and empty
+    you-functions and in @is_you itself.  The argument decides whether, and where, the defeat is reached."""
+    out = []
+    defs = ('int !val(int x) { !truth_is_defeat(x > 3); return x + 7; }\n'
+            'empty !chk(int x) { !truth_is_defeat(x > 3); }\n')
+    int_bodies = {
+        'ret_call': 'return !val(x);',
+        'ret_call_expr': 'return 2 * !val(x) + 1;',
+        'decl_then_ret': 'int r = !val(x); return r;',
+        'chk_then_ret': '!chk(x); return x * 2;',
+        'ret_in_if': 'if (x > 1) { return !val(x); } write(\'n\'); return 0;',
+        'ret_after_loop': 'for (int i = 0; i < 3; i += 1) { if (i == x) { break; } write(i); } return !val(x);',
+        'loop_break_then_defeat': 'for (int i = 0; i < 4; i += 1) { if (i == 1) { continue; } if (i == 3) { break; } write(i); } !chk(x); return x;',
+    }
+    for kind, hk in (('stop', 'stop'), ('undo', 'undo')):
+        for tag, body in int_bodies.items():
+            fn = ('int @attempt(int x) {\n    try { write(\'a\'); %s } %s { write(\'H\'); return -1; }\n}' % (body, hk))
+            main = 'empty @is_you(int x) {\n    writeln(@attempt(x));\n    writeln(@attempt(1));\n    writeln(@attempt(x + 1));\n}'
+            for x in ('0', '2', '3', '5'):
+                out.append(('int_%s_%s' % (kind, tag), defs + fn + '\n' + main + '\n', [x]))
+        # empty you-function: bare return, and falling through after the handler
+        fn = ('empty @step(int x) {\n    try { write(\'a\'); if (x == 2) { return; } !chk(x); write(\'b\'); } %s { write(\'H\'); }\n    write(\'s\');\n}' % hk)
+        main = 'empty @is_you(int x) {\n    @step(x);\n    @step(2);\n    @step(x + 2);\n    writeln();\n}'
+        for x in ('0', '2', '5'):
+            out.append(('empty_%s_ret' % kind, defs + fn + '\n' + main + '\n', [x]))
+        # leaving the try with break / continue of a loop around it; the next iteration defeats (or not)
+        loops = {
+            'break_out': 'for (int i = 0; i < 4; i += 1) {\n        try { write(i); if (i == 1) { break; } !chk(x + i); write(\'b\'); } %s { write(\'H\'); }\n        write(\'e\');\n    }',
+            'continue_out': 'for (int i = 0; i < 4; i += 1) {\n        try { write(i); if (i == 1) { continue; } !chk(x + i); write(\'b\'); } %s { write(\'H\'); }\n        write(\'e\');\n    }',
+            'while_break': 'int i = 0;\n    while (true) {\n        i += 1;\n        try { write(i); if (i == 3) { break; } !chk(x + i); write(\'b\'); } %s { write(\'H\'); }\n    }',
+        }
+        for tag, lp in loops.items():
+            for where in ('fn', 'main'):
+                if where == 'fn':
+                    src = defs + 'empty @run(int x) {\n    %s\n    write(\'r\');\n}\nempty @is_you(int x) {\n    @run(x);\n    @run(0);\n    writeln();\n}\n' % (lp % hk)
+                else:
+                    src = defs + 'empty @is_you(int x) {\n    %s\n    writeln();\n}\n' % (lp % hk)
+                for x in ('0', '2', '4'):
+                    out.append(('loop_%s_%s_%s' % (kind, tag, where), src, [x]))
+        # is_you itself returns out of a try
+        src = defs + 'empty @is_you(int x) {\n    try { write(\'a\'); if (x == 0) { return; } !chk(x); write(\'b\'); return; } %s { write(\'H\'); }\n    writeln(\'z\');\n}\n' % hk
+        for x in ('0', '2', '5'):
+            out.append(('main_%s_ret' % kind, src, [x]))
+    return out
